@@ -86,7 +86,7 @@ func ExecOneShot(c OneShotCase) *vkit.Result {
 	if c.Impl == "mem" {
 		tc = cache.NewTTLMemCache(c.Size, 10)
 	} else {
-		tc = cache.NewTTLRdsCache(newFakeRedis(clock), rdsPrefix, 10)
+		tc = cache.NewTTLRdsCache(newFakeRedis(clock, ScanCfg{}), rdsPrefix, 10)
 	}
 	for i := 1; i < c.Size; i++ {
 		_ = tc.Set(ctx, fmt.Sprintf("other%d", i), []byte("x"))
